@@ -478,3 +478,37 @@ func ZZ_C03_parse_seeds() {
 	zzCheckParse(text)
 	zzCover("end")
 }
+
+// ZZ_C03_parse_value: parser.ParseValue accepts a text iff the whole of it is
+// one (non-constant) Value of the grammar: every sequence of 1..K tokens.
+func ZZ_C03_parse_value() {
+	k := 1 + zzChoice("k", zzParam("K", 3))
+	text := ""
+	for i := 0; i < k; i++ {
+		t := zzTokAlphabet[zzChoice("t"+string(rune('0'+i)), len(zzTokAlphabet))]
+		if i > 0 {
+			text += " "
+		}
+		text += t
+	}
+	lex := lexer.Lex(&source.Source{Body: []byte(text)})
+	var toks []lexer.Token
+	for {
+		t, err := lex(0)
+		zzAssert(err == nil, "alphabet tokens lex")
+		toks = append(toks, t)
+		if t.Kind == lexer.EOF {
+			break
+		}
+	}
+	p := &zzP{toks: toks}
+	want := p.value(false) && p.kind() == lexer.EOF
+	_, err := ParseValue(ParseParams{Source: &source.Source{Body: []byte(text), Name: "zz"}})
+	if (err == nil) != want {
+		if err == nil {
+			zzFail("ParseValue accepts a text that is not one value")
+		}
+		zzFail("ParseValue rejects a value of the grammar")
+	}
+	zzCover("end")
+}
